@@ -187,6 +187,61 @@ Section Ent.
   Qed.
 End Ent.
 
+(** ** Inductor: the same conservation / exactly-once statement (any EWMA weights, any tau). *)
+Section Ind.
+  Variable NO : numops.
+  Variable dflt : Model.num NO.
+  Variable cap : Z.
+  Notation istep := (ind_step NO dflt cap).
+  Notation irun := (ind_run NO dflt cap).
+
+  Definition iids_of (i : iin NO) : list Z := match i with IReq id _ _ => [id] | IPoll _ => [] end.
+
+  Lemma ind_step_facts (e : ent (ips NO)) i :
+    let '(e1, o, d) := istep e i in
+    Permutation (e_queue e ++ iids_of i) (fwd_ids o ++ e_queue e1 ++ d) /\
+    e_recv e1 = e_recv e + Z.of_nat (length (iids_of i)) /\
+    e_fwd e1 = e_fwd e + Z.of_nat (length (fwd_ids o)) /\
+    e_drop e1 = e_drop e + Z.of_nat (length d).
+  Proof.
+    destruct i as [id now a|now]; cbn [ind_step iids_of].
+    - pose proof (step_facts (ips NO) (ind_acq NO) (ind_tua NO dflt) cap (set_pol NO e (ind_update NO (e_pol e) now a)) (EReq id now)) as SF.
+      destruct (ent_step _ _ _ _ _ _) as [[e1 o] d]. cbn [set_pol e_queue e_recv e_fwd e_drop ids_of] in SF. tauto.
+    - pose proof (step_facts (ips NO) (ind_acq NO) (ind_tua NO dflt) cap e (EPoll now)) as SF.
+      destruct (ent_step _ _ _ _ _ _) as [[e1 o] d]. cbn [ids_of] in SF. tauto.
+  Qed.
+
+  Theorem ind_conservation ins : forall e : ent (ips NO),
+    let '(e', outs, dr) := irun e ins in
+    Permutation (e_queue e ++ ireq_ids NO ins) (fwd_ids outs ++ e_queue e' ++ dr) /\
+    e_recv e' = e_recv e + Z.of_nat (length (ireq_ids NO ins)) /\
+    e_fwd e' = e_fwd e + Z.of_nat (length (fwd_ids outs)) /\
+    e_drop e' = e_drop e + Z.of_nat (length dr).
+  Proof.
+    induction ins as [|i r IH]; intros e; cbn [ind_run].
+    - cbn [ireq_ids flat_map fwd_ids app length]. rewrite !app_nil_r. split; [apply Permutation_refl|]. lia.
+    - pose proof (ind_step_facts e i) as SF. destruct (istep e i) as [[e1 o1] d1].
+      specialize (IH e1). destruct (irun e1 r) as [[e2 o2] d2].
+      destruct SF as (P1 & R1 & F1 & D1). destruct IH as (P2 & R2 & F2 & D2).
+      assert (EI : ireq_ids NO (i :: r) = iids_of i ++ ireq_ids NO r) by (destruct i; reflexivity).
+      rewrite EI, fwd_ids_app, !app_length, !Nat2Z.inj_add. split; [|lia].
+      rewrite app_assoc. eapply Permutation_trans; [apply Permutation_app_tail; exact P1|].
+      rewrite <- !app_assoc. apply Permutation_app_head.
+      eapply Permutation_trans; [apply Permutation_app_head, Permutation_app_comm|].
+      rewrite app_assoc. eapply Permutation_trans; [apply Permutation_app_tail; exact P2|].
+      rewrite <- !app_assoc. apply Permutation_app_head, Permutation_app_head, Permutation_app_comm.
+  Qed.
+End Ind.
+
+(** ** NullRateLimiter forwards every request once, at its own time, in order. *)
+Theorem null_forwards_all (reqs : list (Z * Z)) :
+  fwd_ids (flat_map (fun r => null_step (fst r) (snd r)) reqs) = map fst reqs.
+Proof.
+  induction reqs as [|[i t] r IH]; [reflexivity|].
+  cbn [flat_map map fst snd null_step app]. change (fwd_ids (OFwd i t :: ?x)) with (i :: fwd_ids x).
+  unfold fwd_ids in *. cbn [flat_map app]. rewrite IH. reflexivity.
+Qed.
+
 (** ** arrival order, full statement: REFUTED on the faithful model.  Token bucket with
     capacity 1, 1 token/s; requests 0 and 1 arrive at t = 0 (1 is queued, poll at 1 s);
     request 2 arrives at exactly 1 s and is delivered before the poll of the same instant
